@@ -791,6 +791,8 @@ def rule_r9(ctx):
     for f in list(k.methods.values()) + [g for pr in k.props.values() for g in pr.values()]:
         if f.name in ("__init__", "__new__", "__setstate__") or isinstance(f.node, ast.Lambda) or not f.params:
             continue
+        if f.name.startswith("_") and not f.name.startswith("__") and ctx.repo.transparent_callers(f) is not None:
+            continue  # a private helper that exists only as a part of its callers: what it is given is examined there (E1b)
         me, params = f.params[0], set(f.params[1:])
         a = f.node.args
         if a.vararg:
